@@ -2,5 +2,5 @@ R Coq.Strings.String
 R Coq.Strings.Ascii
 R BHS.Config
 R BHSGen.ConfigKeys
-X Config.load_model Config.load_spec Config.load_sel_model Config.load_sel_spec Config.read_file Config.load_files_model Config.load_files_spec Config.viper_exts Config.db_validate_fs Config.db_validate Config.db_okb Config.db_of_cfg Config.env_name Config.lookup Config.table_ok Config.parse_udec Config.canon
+X Config.load_model Config.load_spec Config.load_sel_model Config.load_sel_spec Config.read_file Config.load_files_model Config.load_files_spec Config.viper_exts Config.db_validate_fs Config.load_refusal Config.shadowed Config.env_of_spec Config.env_of Config.stringy Config.type_of Config.db_validate Config.db_okb Config.db_of_cfg Config.env_name Config.lookup Config.table_ok Config.parse_udec Config.canon
 X ConfigKeys.config_keys
